@@ -1138,13 +1138,34 @@ def _rwc_homogeneous_n_h_using_partial_selection(
             yield (outcomes, count)
 
 
-@cache
 def _selected_distros_memoized(
     h: H,
     n: int,
     k: int,
     from_right: bool,
 ) -> tuple[_RollProbT, ...]:
+    # H.__eq__ and H.__hash__ conflate histograms whose outcomes or counts differ in
+    # representation (e.g., 1 vs. 1.0, or zero-count padding), so we memoize on the
+    # precise items instead
+    return _selected_distros_memoized_by_items(
+        tuple((type(outcome), outcome, count) for outcome, count in h.items()),
+        type(h),
+        n,
+        k,
+        from_right,
+    )
+
+
+@cache
+def _selected_distros_memoized_by_items(
+    typed_items: tuple[tuple[type, RealLike, int], ...],
+    h_type: type,
+    n: int,
+    k: int,
+    from_right: bool,
+) -> tuple[_RollProbT, ...]:
+    h = h_type((outcome, count) for _, outcome, count in typed_items)
+
     def _selected_distros_gen() -> Iterator[_RollProbT]:
         if len(h) <= 1:
             whole = tuple(h) * k
